@@ -3,7 +3,6 @@
    points at, leave every other tree alone and move no handle outside that node. *)
 From V.model Require Import Base Deb822Lex Deb822Parse Deb822Edit Deb822Store.
 From V.proofs Require Import BaseP Deb822EditP Deb822StoreP Deb822StoreOpsP.
-Set Default Timeout 60.
 
 (* ------------------------------------------------------------------ finding the first entry with a key *)
 Lemma find_index_replace_first (P : tree -> bool) (f : tree -> tree) cs :
